@@ -561,12 +561,31 @@ class Interp(Engine):
             return self._finish_comp(i, n, normal, elem)
         self._finish_loop(i, n, normal, pre_env, env, assigned)
 
+    def _guarded_filter(self, i, n, kept):
+        """[value_p(i) for i in range(n) if some guard_p(i)] for the (guard, value) pairs `kept` (guards exclusive)"""
+        def keep(j):
+            pairs = [(i, j)]
+            self.subst_facts(pairs)
+            return z3.Or([z3.substitute(g, *pairs) for g, _ in kept])
+
+        def val(j):
+            pairs = [(i, j)]
+            self.subst_facts(pairs)
+            cs = [(z3.substitute(g, *pairs), self.subst(v, pairs)) for g, v in kept]
+            return cs[0][1] if len(cs) == 1 else CaseV(cs)
+        ident = all(isinstance(v, SV) and v.kind == 'int' and z3.eq(z3.simplify(v.z - i), z3.IntVal(0)) for _, v in kept)
+        allint = all(isinstance(v, int) or (isinstance(v, SV) and v.kind == 'int') for _, v in kept)
+        return self.make_filter(n, keep, None if ident else val, esort='int' if allint else 'val')
+
     def _finish_comp(self, i, n, paths, src_elem):
-        if any(p['result'][0] == 'drop' for p in paths):
-            raise Undecided('filtered comprehension over a symbolic sequence')
         for p in paths:
             if any(e[0] != 'assign' for e in p['effects']):
                 raise Undecided('side effect inside comprehension')
+        if any(p['result'][0] == 'drop' for p in paths):
+            kept = [(p['guard'], p['result'][1]) for p in paths if p['result'][0] == 'keep']
+            if not kept:
+                return SeqV(items=[], kind='list')
+            return self._guarded_filter(i, n, kept)
         cases = [(p['guard'], p['result'][1]) for p in paths]
 
         def elem(t, cases=cases):
@@ -615,6 +634,21 @@ class Interp(Engine):
         # ---- appends
         for _, (lst, per_path) in appends.items():
             counts = {len(per_path.get(pi, [])) for pi in range(len(paths))}
+            if counts == {0, 1}:
+                # conditional append: the appended values form a FILTER of the iterations
+                kept = [(paths[pi]['guard'], per_path[pi][0]) for pi in range(len(paths)) if per_path.get(pi)]
+                block = self._guarded_filter(i, n, kept)
+                block.kind = lst.kind
+                if self.is_outer(lst):
+                    # the list lives outside an enclosing symbolic loop: one block per iteration of that loop
+                    self.loops[-1].effects.append(('extend', lst, block))
+                    continue
+                old = lst_copy(lst)
+                if old.items is not None and not old.items:
+                    self._replace_list(lst, block)
+                else:
+                    self._replace_list(lst, self.seq_concat([old, block]))
+                continue
             if counts != {1}:
                 self._poison_list(lst, 'list appended a path-dependent number of times in a symbolic loop')
                 continue
@@ -646,7 +680,7 @@ class Interp(Engine):
                 st, _, _ = self.prove(z3.substitute(b.zlen(), (i, j)) == L, pc=self.pc + [z3.And(i >= 0, i < n, j >= 0, j < n)])
                 ok = ok and st == 'proved'
             if not ok or _mentions(L, i):
-                self._poison_list(lst, 'list extended by blocks of varying length in a symbolic loop')
+                self._extend_varying(lst, i, n, blocks)
                 continue
             old = lst_copy(lst)
             n0 = old.zlen()
@@ -759,6 +793,61 @@ class Interp(Engine):
                     env[name] = newv
             except Undecided as u:
                 env[name] = Poison(str(u))
+
+    def _extend_varying(self, lst, i, n, blocks):
+        """lst.extend(block(i)) for i in range(n) with blocks of VARYING length: the concatenation, described by the prefix
+        sums off (off(0) = 0, off(q+1) = off(q) + len(block(q)), non-decreasing) and the block-of-position function blk"""
+        old = lst_copy(lst)
+        n0 = old.zlen()
+        nn = z3.If(n > 0, n, 0)
+        off = self.fresh_fun('off', 'int')
+        blk = self.fresh_fun('blk', 'int')
+
+        def blen(q):
+            pairs = [(i, q)]
+            self.subst_facts(pairs)
+            out = None
+            for g, b in reversed(blocks):
+                z = z3.substitute(b.zlen(), *pairs)
+                out = z if out is None else z3.If(z3.substitute(g, *pairs), z, out)
+            return out
+
+        def block_at(q):
+            pairs = [(i, q)]
+            self.subst_facts(pairs)
+            cs = [(z3.substitute(g, *pairs), self.subst(b, pairs)) for g, b in blocks]
+            return cs
+
+        self.fact(off(z3.IntVal(0)) == 0)
+        qa, qb = z3.Int(fresh_name('qa')), z3.Int(fresh_name('qb'))
+        # prefix sums of non-negative lengths are non-decreasing (lemma by induction, stated as an axiom of the summary)
+        self.fact(z3.ForAll([qa, qb], z3.Implies(z3.And(qa >= 0, qa <= qb, qb <= nn), off(qa) <= off(qb)),
+                            patterns=[z3.MultiPattern(off(qa), off(qb))]))
+
+        def off_at(q):
+            """instantiate the prefix-sum facts around block q"""
+            lq = blen(q)
+            self.fact(z3.Implies(z3.And(q >= 0, q < nn), z3.And(off(q + 1) == off(q) + lq, lq >= 0, off(q) >= 0,
+                                                                off(q + 1) <= off(nn))))
+            return off(q)
+        total = off(nn)
+        self.fact(total >= 0)
+
+        def elem(t):
+            u = t - n0
+            q = blk(u)
+            self.fact(z3.Implies(z3.And(u >= 0, u < total), z3.And(q >= 0, q < nn)))
+            oq = off_at(q)
+            self.fact(z3.Implies(z3.And(u >= 0, u < total), z3.And(oq <= u, u < off(q + 1))))
+            cs = [(g, self.seq_elem(b, u - oq)) for g, b in block_at(q)]
+            new = cs[0][1] if len(cs) == 1 else CaseV(cs)
+            if old.items is not None and not old.items:
+                return new
+            return CaseV([(t < n0, self.seq_elem(old, t)), (t >= n0, new)])
+        esort = 'int' if all(b.esort == 'int' for _, b in blocks) and (old.items == [] or old.esort == 'int') else 'val'
+        new = SeqV(length=z3.simplify(n0 + total), elem=elem, kind=lst.kind, esort=esort)
+        new.blocks = dict(n=nn, off=off_at, blen=blen, block=block_at, n0=n0)
+        self._replace_list(lst, new)
 
     def make_sum(self, i, n, body):
         """Sum_{i<n} body(i) as an opaque value (only congruence is known about Sum)"""
@@ -1974,6 +2063,8 @@ class _LambdaShim:
 def lst_copy(s):
     c = SeqV(items=None if s.items is None else list(s.items), length=s.length, elem=s.elem, mem=s.mem,
              inv=s.inv, kind=s.kind, esort=s.esort, canon=s.canon, term=s.term)
+    c.filt = getattr(s, 'filt', None)
+    c.blocks = getattr(s, 'blocks', None)
     return c
 
 
